@@ -28,6 +28,10 @@ type shutCase struct {
 	Shutdown string `json:"shutdown"` // CloseAndDelete | Close (last handle of an on-disk bucket) | DropDataStore
 	Handles  int    `json:"handles"`
 	Release  string `json:"release"` // before | after: release the held activity before / after the shutdown call returned (or blocked)
+	// storm (free-running) scenarios only
+	Workers []string `json:"workers,omitempty"`
+	After   int      `json:"after,omitempty"` // shut down after this many completed client calls
+	Seed    int64    `json:"seed,omitempty"`
 }
 
 type shutResult struct {
@@ -59,6 +63,9 @@ func rosmarGoroutines() []string {
 
 // runShutdownScenario runs inside the child.
 func runShutdownScenario(c shutCase) (res shutResult) {
+	if c.Kind == "storm" {
+		return runStormScenario(c)
+	}
 	bad := func(clause, f string, a ...any) {
 		res.Devs = append(res.Devs, Deviation{Clause: clause, Props: []string{"C20"}, Sig: clause + "|" + c.Kind, Msg: fmt.Sprintf(f, a...)})
 	}
@@ -333,6 +340,20 @@ func runShutdownChild(c shutCase) (shutResult, error) {
 }
 
 func genShutCase(rt *rapid.T) shutCase {
+	if chance(rt, 35, "storm") {
+		c := shutCase{Kind: "storm", Handles: rapid.IntRange(1, 3).Draw(rt, "handles"), Disk: chance(rt, 50, "disk")}
+		n := rapid.IntRange(2, 6).Draw(rt, "nworkers")
+		for i := 0; i < n; i++ {
+			c.Workers = append(c.Workers, pick(rt, stormWorkerKinds, "worker"))
+		}
+		c.After = rapid.IntRange(0, 120).Draw(rt, "after")
+		c.Seed = int64(rapid.IntRange(1, 1<<30).Draw(rt, "seed"))
+		c.Shutdown = pick(rt, []string{"CloseAndDelete", "CloseAndDelete", "DropDataStore"}, "shutdown")
+		if c.Disk && chance(rt, 50, "close") {
+			c.Shutdown = "Close"
+		}
+		return c
+	}
 	c := shutCase{Kind: pick(rt, []string{"expiryFire", "expiryRun", "writer", "feedStart", "feedDeliver", "updateAfter", "dropFeed"}, "kind"), Handles: rapid.IntRange(1, 2).Draw(rt, "handles")}
 	c.Disk = chance(rt, 40, "disk")
 	c.Shutdown = "CloseAndDelete"
@@ -358,7 +379,11 @@ func TestC20(t *testing.T) {
 		if err := json.Unmarshal(rp.Extra, &c); err != nil {
 			t.Fatal(err)
 		}
-		for i := 0; i < 3; i++ {
+		tries := 3
+		if c.Kind == "storm" {
+			tries = 12 // free-running: the scenario replays, the interleaving does not
+		}
+		for i := 0; i < tries; i++ {
 			res, err := runShutdownChild(c)
 			if err != nil {
 				t.Fatalf("infrastructure: %v", err)
